@@ -73,6 +73,13 @@ class Report:
             "rule": self.rule, "samples": self.samples or ["(none)"], "exhaustive": self.exhaustive,
             "tlc_runs": self.tlc_runs, "known_finding_hits": self.known_hits,
         }
+        try:
+            from . import trace as _trace
+            cov["traces_accepted_by_trace_spec"] = _trace.STATS["accepted"]
+            cov["traces_rejected_by_trace_spec"] = _trace.STATS["rejected"]
+            vacuous = _trace.STATS["validated"] > 0 and _trace.STATS["accepted"] == 0
+        except Exception:
+            vacuous = False
         cov.update(self.extra)
         ev = {"property_id": self.pid, "tier": self.tier, "seed": SEED, "level": level, "coverage": cov,
               "assumptions": self.assumptions, "wall_s": round(wall, 2), "violations": len(self.violations)}
@@ -96,6 +103,10 @@ class Report:
                 shown += 1
         if len(self.violations) > shown:
             print(f"  ... {len(self.violations) - shown} more violations (replay files written)")
+        if vacuous and not self.violations:
+            from .common import MachineryError
+            raise MachineryError("no recorded execution was accepted by its trace specification: nothing was examined past the "
+                                 "first events (recorder or spec problem, or a defect owned by another property)")
         print(f"[{self.pid}] tier={self.tier} states={self.states} transitions={self.transitions} "
               f"cases={self.evaluations} traces={self.traces} violations={len(self.violations)} wall={wall:.1f}s")
         return 1 if self.violations else 0
